@@ -13,6 +13,7 @@ import Mahotas.Proofs.C13Filter
 import Mahotas.Proofs.C13Oracles
 import Mahotas.Proofs.C13OraclesNum
 import Mahotas.Proofs.C13OraclesFloat
+import Mahotas.Proofs.Modes
 open Mahotas Mahotas.C13
 
 /-- **C13-T1 (fold_eq, generic).** For every value type, operation `f`, identity `start`, number of
@@ -536,3 +537,12 @@ example {α : Type} [Field α] (shape : List Nat) (ks labels : List Int) (hnn : 
       (comSpec shape ks labels).map fun nd => ((nd.1 : Int) : α) / ((nd.2 : Int) : α) :=
   comModelG_of_exact (fieldOps α) (fun k => ((k : Int) : α)) shape ks labels hnn (by simp [fieldOps])
     (by intros; simp [fieldOps]) (by intros; simp [fieldOps])
+
+/-- **C13 (tie to the source, generated tables).** The code by which the models number a border mode is the code the
+current source gives it in both places: `mode2int` of `mahotas/_filters.py` (what the wrappers send) and
+`enum ExtendMode` of `mahotas/_filters.h` (what the kernels switch on); neither table has further entries. Both tables
+are regenerated from the source on every run. -/
+theorem C13_mode_codes_agree (m : Mahotas.Mode) :
+    (Mahotas.Generated.pyModes.lookup m.name = some m.code ∧ Mahotas.Generated.cppModes.lookup m.name = some m.code) ∧
+    Mahotas.Generated.pyModes.length = 6 ∧ Mahotas.Generated.cppModes.length = 6 :=
+  ⟨Mahotas.mode_codes_agree m, Mahotas.mode_tables_complete.1, Mahotas.mode_tables_complete.2.1⟩
